@@ -112,6 +112,10 @@ def is_tiny(e: Any) -> bool:
     return False
 
 
+SCIPY_SIGS = {"root_scalar": ["f"], "brentq": ["f", "a", "b"], "solve_ivp": ["fun", "t_span", "y0"], "minimize_scalar": ["fun"],
+              "minimize": ["fun", "x0"], "root": ["fun", "x0"], "simpson": ["y"], "quad": ["func", "a", "b"]}
+
+
 class Extractor:
     def __init__(self, source: Source, positive: Optional[set[str]] = None,
                  inline: Optional[Callable[[str], bool]] = None, max_depth: int = 4,
@@ -422,6 +426,11 @@ class Extractor:
             c = self.cond(test.operand, env, depth)
             if isinstance(c, bool):
                 return not c
+            if isinstance(c, sp.Basic) and getattr(c, "is_Relational", False):
+                try:
+                    return c.negated          # `not a < b` is the relational a >= b (the same guard with the branches exchanged)
+                except Exception:
+                    pass
             return Opaque(src(test))
         try:
             v = self.expr(test, env, depth)
@@ -702,7 +711,8 @@ class Extractor:
                 if isinstance(a0, sp.Basic) and a0.func == sp.Function("COMP"):
                     return SUM(a0.args[0])
                 if isinstance(a0, sp.Basic):
-                    return SUM(a0, *[v for v in kwargs.values() if isinstance(v, sp.Basic)])
+                    extra = [v for v in args[1:2] if isinstance(v, sp.Basic)] if "axis" not in kwargs else []      # np.sum(a, k) == np.sum(a, axis=k)
+                    return SUM(a0, *extra, *[v for v in kwargs.values() if isinstance(v, sp.Basic)])
                 if isinstance(a0, (list, tuple)) and all(isinstance(x, sp.Basic) for x in a0):
                     return sp.Add(*a0)
             if d in ("len",):
@@ -751,7 +761,7 @@ class Extractor:
         kwargs = dict(kwargs)
         if kwargs:
             from .nf import package_sig
-            params = package_sig(self.source, d.split(".")[-1])
+            params = package_sig(self.source, d.split(".")[-1]) or SCIPY_SIGS.get(d.split(".")[-1])
             if params:
                 while len(args) < len(params) and params[len(args)] in kwargs:
                     args.append(kwargs.pop(params[len(args)]))
